@@ -164,5 +164,10 @@ package flexfec
 //@   ensures media_unchanged: old(header.SSRC) == mediaSSRC ==> callarg("writer.Write", 0) == header && callarg("writer.Write", 1) == payload
 //@        && callarg("writer.Write", 2) == attributes && result0 == callres("writer.Write", 0)
 //@   ensures media_error_reported: old(header.SSRC) == mediaSSRC && callres("writer.Write", 1) != nil ==> result1 != nil
+//@   # property C13: what is kept for the batch is a private copy, not the caller's payload slice
+//@   # (evaluated when the media packet is handed on: the batch buffer was extended just before)
+//@   ensures private_copy: old(header.SSRC) == mediaSSRC ==> atcall("writer.Write", len(stream.packetBuffer) > 0 ==>
+//@        (len(payload) > 0 ==> fresh(stream.packetBuffer[len(stream.packetBuffer) - 1].Payload))
+//@        && len(stream.packetBuffer[len(stream.packetBuffer) - 1].Payload) == len(payload))
 //@   loop 1 invariant errs: (errs == nil || fresh(errs)) && 0 <= len(errs) && (callres("writer.Write", 1) != nil ==> len(errs) >= 1 && errs[0] != nil)
 //@   loop 1 opt noautoframe
